@@ -1,6 +1,11 @@
 (* Cobs/CobsRun.v — histories of encoder operations on model and specification level
    (what the drivers of C01 execute).  No proofs. *)
-From MptV Require Import Base.Mem Cobs.CobsModel Cobs.PyModel.
+From MptV Require Import Base.Mem Cobs.CobsModel Cobs.PyModel Cobs.TextModel.
+
+Inductive framing := FCobs (v : variant) | FText.
+
+Definition enc_any (f : framing) := match f with FCobs v => enc_call v | FText => str_call end.
+Definition dec_any (f : framing) (body : list byte) := match f with FCobs v => sdec v body | FText => text_decode body end.
 Local Open Scope nat_scope.
 
 (* observation of one operation *)
@@ -11,37 +16,62 @@ Inductive cobs_obs :=
 | OPy (decoded : option (list byte)) (frame : list byte)
 | OAny.
 
+(* the retry loop of CobsModel.push_loop, for either kind of encoder *)
+Fixpoint push_loop_any (fuel : nat) (f : framing) (st : estate) (buf : list byte) (cap : nat)
+         (sched : list nat) (sp : nat) (d : option (list byte)) (off : nat)
+  : eres * estate * list byte * nat :=
+  match fuel with
+  | 0 => (EErr BadOperation, st, buf, cap)
+  | S fuel =>
+    let arg := match d with Some l => Some (skipn off l) | None => None end in
+    let '(r, st', buf') := enc_any f st buf cap arg in
+    match r with
+    | EErr MissingBuffer =>
+      let inc := nth (sp mod (length sched)) sched 0 in
+      if inc =? 0 then (r, st', buf', cap)
+      else push_loop_any fuel f st' buf' (cap + inc) sched (S sp) d off
+    | EErr _ | EFault => (r, st', buf', cap)
+    | EInt k =>
+      match d with
+      | None => (EInt 0, st', buf', cap)
+      | Some l => if length l <=? off + k then (EInt (off + k), st', buf', cap)
+                  else if k =? 0 then (EInt off, st', buf', cap)
+                  else push_loop_any fuel f st' buf' cap sched sp d (off + k)
+      end
+    end
+  end.
+
 Definition count_zeros (l : list byte) : nat := length (filter bz l).
 
 Definition set_cap (s : cstate) (n : nat) : cstate := mkc (cst s) (firstn n (cbuf s)) n.
 
-Definition cstep (v : variant) (s : cstate) (o : cop) : cstate * cobs_obs :=
+Definition cstep (v : framing) (s : cstate) (o : cop) : cstate * cobs_obs :=
   match o with
   | CCall cap d =>
     let s1 := set_cap s cap in
-    let '(r, st', buf') := enc_call v (cst s1) (cbuf s1) cap (Some d) in
+    let '(r, st', buf') := enc_any v (cst s1) (cbuf s1) cap (Some d) in
     (mkc st' buf' cap, OCall r st' buf' (cap <? edone st' + escr st'))
   | CTerm cap =>
     let s1 := set_cap s cap in
-    let '(r, st', buf') := enc_call v (cst s1) (cbuf s1) cap None in
+    let '(r, st', buf') := enc_any v (cst s1) (cbuf s1) cap None in
     (mkc st' buf' cap, OCall r st' buf' (cap <? edone st' + escr st'))
   | CPushAll sched d =>
-    let '(r, st', buf', cap') := push_loop (4 * length d + 64) v (cst s) (cbuf s) (ccap s) sched 0 (Some d) 0 in
+    let '(r, st', buf', cap') := push_loop_any (4 * length d + 64) v (cst s) (cbuf s) (ccap s) sched 0 (Some d) 0 in
     (mkc st' buf' cap', OPush r st' buf' cap')
   | CTermAll sched =>
-    let '(r, st', buf', cap') := push_loop 600 v (cst s) (cbuf s) (ccap s) sched 0 None 0 in
+    let '(r, st', buf', cap') := push_loop_any 600 v (cst s) (cbuf s) (ccap s) sched 0 None 0 in
     (mkc st' buf' cap', OPush r st' buf' cap')
   | CMsg =>
     let fin := firstn (edone (cst s)) (cbuf s) in
     let '(bodies, rest) := split_frames [] fin in
-    (s, OMsg (count_zeros fin) (map (sdec v) bodies) (length rest))
+    (s, OMsg (count_zeros fin) (map (dec_any v) bodies) (length rest))
   | CPy m _ =>
     (* model level: the transcribed Python encoder's frame and what the reference decoder makes of it *)
     let f := py_encode_cobs m in
     (s, OPy (sdec v_cobs (removelast f)) f)
   end.
 
-Fixpoint crun (v : variant) (s : cstate) (ops : list cop) : list cobs_obs :=
+Fixpoint crun (v : framing) (s : cstate) (ops : list cop) : list cobs_obs :=
   match ops with
   | [] => []
   | o :: ops => let '(s', ob) := cstep v s o in ob :: crun v s' ops
@@ -52,25 +82,30 @@ Fixpoint crun (v : variant) (s : cstate) (ops : list cop) : list cobs_obs :=
    and the message they belong to is not predicted) *)
 Record sstate := mks { sfin : list (list byte); scur : list byte; sraw : bool }.
 
-Definition cspec_step (s : sstate) (o : cop) : sstate * cobs_obs :=
+Definition expect_msg (f : framing) (m : list byte) : list byte :=
+  match f with FCobs _ => m | FText => cmd_header ++ m end.
+Definition admits (f : framing) (m : list byte) : bool :=
+  match f with FCobs _ => true | FText => text_admits m end.
+
+Definition cspec_step (f : framing) (s : sstate) (o : cop) : sstate * cobs_obs :=
   match o with
   | CCall _ _ | CTerm _ => (mks (sfin s) (scur s) true, OAny)
   | CPushAll sched d =>
-    if existsb (fun i => i =? 0) sched || (length d =? 0) then (mks (sfin s) (scur s) true, OAny)
+    if existsb (fun i => i =? 0) sched || (length d =? 0) || negb (admits f d) then (mks (sfin s) (scur s) true, OAny)
     else (mks (sfin s) (scur s ++ d) (sraw s), OPush (EInt (length d)) (mke 0 0 0) [] 0)
   | CTermAll sched =>
     if existsb (fun i => i =? 0) sched then (mks (sfin s) (scur s) true, OAny)
     else (mks (sfin s ++ [scur s]) [] (sraw s), OPush (EInt 0) (mke 0 0 0) [] 0)
   | CMsg =>
     if sraw s then (s, OAny)
-    else (s, OMsg (length (sfin s)) (map Some (sfin s)) 0)
+    else (s, OMsg (length (sfin s)) (map (fun m => Some (expect_msg f m)) (sfin s)) 0)
   | CPy m _ => (s, OPy (Some m) [])
   end.
 
-Fixpoint csrun (s : sstate) (ops : list cop) : list cobs_obs :=
+Fixpoint csrun (f : framing) (s : sstate) (ops : list cop) : list cobs_obs :=
   match ops with
   | [] => []
-  | o :: ops => let '(s', ob) := cspec_step s o in ob :: csrun s' ops
+  | o :: ops => let '(s', ob) := cspec_step f s o in ob :: csrun f s' ops
   end.
 
 Definition cinit : cstate := mkc (mke 0 0 0) [] 0.
